@@ -96,6 +96,11 @@ OpWit(m0, m, ev) ==
      \cup (IF ev.op = "update" /\ ev.f \in was \ now THEN {"update_hid"} ELSE {})
      \cup (IF ev.op = "update" /\ ev.f \in now \ was THEN {"update_showed"} ELSE {})
      \cup (IF ev.op = "remove" /\ ev.f = m0.focusWas /\ ev.view # <<>> THEN {"removed_focused"} ELSE {})
+     \* the focused flow leaves a list that keeps other flows: by position and direction
+     \cup (IF ev.op \in {"remove", "update"} /\ ev.f # 0 /\ ev.f = m0.focusWas /\ ev.f \in was \ now /\ ev.view # <<>>
+           THEN (IF m0.prev[1] = ev.f THEN {IF m.rev THEN "focused_first_left_reversed" ELSE "focused_first_left"} ELSE {})
+                \cup (IF m0.prev[Len(m0.prev)] = ev.f /\ m.rev THEN {"focused_last_left_reversed"} ELSE {})
+           ELSE {})
      \cup (IF m.mo /\ m.store # <<>> THEN {"marked_only"} ELSE {})
      \cup (IF m.rev /\ Len(ev.view) > 1 THEN {"reversed"} ELSE {})
      \cup (IF m.order # "time" /\ Len(ev.view) > 1 THEN {"ordered_by_mutable_key"} ELSE {})
